@@ -13,6 +13,7 @@
 #include <sys/mman.h>
 #include <sys/types.h>
 #include <sys/stat.h>
+#include <sys/resource.h>
 
 static int zh_hexval(int c) {
     if(c >= '0' && c <= '9') return c - '0';
@@ -95,5 +96,15 @@ static int zh_memfd(const void *data, size_t n) {
     }
     lseek(fd, 0, SEEK_SET);
     return fd;
+}
+
+/* ZH_AS_LIMIT_MB caps the address space (non-sanitized builds only): crafted length fields
+   make the library ask for huge buffers, which must fail instead of thrashing */
+static void zh_apply_limits(void) {
+    const char *m = getenv("ZH_AS_LIMIT_MB");
+    if(m) {
+        struct rlimit rl; rl.rlim_cur = rl.rlim_max = (rlim_t)atol(m) * 1024 * 1024;
+        setrlimit(RLIMIT_AS, &rl);
+    }
 }
 #endif
